@@ -74,6 +74,7 @@ func vxCheckFilter(res []*Log, logged []vxLogRec, owner, typ, N int, final bool)
 func vxH20Ring(N int, nops int) {
 	l := NewLogger(N)
 	var logged []vxLogRec
+	var kept, keptCopy [][]*Log // earlier Filter results and what they held when they were returned
 	for i := 0; i < nops; i++ {
 		if op := vxChoose("op", 4); op < 2 {
 			// owner A or B, symbolic type in {1,2}
@@ -89,6 +90,8 @@ func vxH20Ring(N int, nops int) {
 			vxAssume(vxAll(typ >= 0, typ <= 2))
 			res := l.Filter(vxOwnerVal(owner), typ)
 			vxCheckFilter(res, logged, owner, typ, N, false)
+			kept = append(kept, res)
+			keptCopy = append(keptCopy, append([]*Log{}, res...))
 			vxReach("filter-mid")
 		}
 	}
@@ -101,6 +104,14 @@ func vxH20Ring(N int, nops int) {
 	vxAssume(vxAll(typ >= 0, typ <= 2))
 	res := l.Filter(vxOwnerVal(owner), typ)
 	vxCheckFilter(res, logged, owner, typ, N, true)
+	// a result that was returned stays what it was: later Log/Filter calls do not rewrite it
+	for i := range kept {
+		same := len(kept[i]) == len(keptCopy[i])
+		for j := 0; same && j < len(kept[i]); j++ {
+			same = kept[i][j] == keptCopy[i][j]
+		}
+		vxAssert(same, "earlier-filter-result-not-disturbed-by-later-calls")
+	}
 	vxReach("final")
 }
 
